@@ -312,6 +312,36 @@ def streams(rng, tier):
                       dict(base, metadata_version="1.1", requires_dist=[nested])):
                 for val in ("T", "F"):
                     protos.append(("escape-deep", "m.from_raw", [val] + enc_dict(d), d, ["Rname", "Rrequires_dist"]))
+    # 5e. the heap model: lazy object, reads interleaved with in-place changes by the caller / the holder of a returned list
+    for _ in range(600 if q else 30000):
+        d = consistent_dict(rng) if rng.random() < 0.7 else rand_dict(rng)
+        d = {k: v for k, v in d.items() if k in ALL_FIELDS}
+        lf = [k for k in d if isinstance(d[k], list)] or ["keywords"]
+        ops, extra = [], {"requires_dist": [], "license_files": []}
+        for _ in range(rng.choice([2, 4, 8, 14])):
+            r = rng.random()
+            k = rng.choice(lf) if rng.random() < 0.8 else rng.choice(LIST_F)
+            items = [rng.choice((ITEMS[k][0] + ITEMS[k][1][:2]) if k in ITEMS else PLAIN_S) for _ in range(rng.choice([0, 1, 2]))]
+            if k in extra: extra[k] += items
+            if r < 0.45: ops.append("R" + (rng.choice(lf) if rng.random() < 0.7 else rng.choice(ALL_FIELDS + NON_ATTR[:3])))
+            elif r < 0.6: ops.append("\x1f".join(["a" + k] + items))
+            elif r < 0.68: ops.append("d" + k)
+            elif r < 0.86: ops.append("\x1f".join(["m" + k] + items))
+            else: ops.append("\x1f".join(["h" + k] + items))
+        dq = dict(d)                                       # oracle verdicts also for the items the operations may put into converted lists
+        for k, its in extra.items():
+            if its: dq[k] = (list(dq[k]) if isinstance(dq.get(k), list) else []) + its
+        protos.append(("heap", "m.heap", ["F"] + enc_dict(d), dq, ops))
+    for k in LIST_F:          # every list field: change in place before / after the first read, by the caller / the holder; rebind; delete
+        good = ITEMS[k][0] if k in ITEMS else PLAIN_S
+        v0, v1, v2 = [good[0]], [good[0], good[1]], [good[2]]
+        d = {"metadata_version": "2.4", "name": "n", "version": "1", k: list(v0)}
+        dq = dict(d); dq[k] = v0 + v1 + v2
+        J = "\x1f".join
+        for ops in (["R" + k, J(["m" + k] + v1), "R" + k, J(["h" + k] + v2), "R" + k, J(["a" + k] + v1), "R" + k, "d" + k, "R" + k],
+                    [J(["m" + k] + v1), "R" + k, J(["a" + k] + v2), J(["m" + k] + v0), "R" + k],
+                    ["d" + k, "R" + k, J(["h" + k] + v1), "R" + k], [J(["h" + k] + v1), J(["a" + k] + v2), "R" + k]):
+            protos.append(("heap", "m.heap", ["F"] + enc_dict(d), dq, ops))
     cases = attach_oracles(protos)
 
     # 6. from_email: documents -> parse_email (implementation) -> (raw, unparsed) tokens -> model of from_email
